@@ -43,3 +43,21 @@ Example C10_example :
   url_eqb a b = true /\ url_ltb a b = false /\ url_gtb a b = false.
 Proof. cbn. auto. Qed.
 Print Assumptions C10_example.
+
+(** Tie to the source by translation: __eq__, _cmp_val and the four ordering operators of
+    class URL (yarl/_url.py) are re-read from the working tree on every run (harness/gen_model.py,
+    method scheme: [self] / [other] are model URL values, tuples of str are lists, tuple
+    comparisons are Python's lexicographic ones) and proved equal to the definitions the
+    theorems above are about.  The [type(other) is not URL] dispatch is skipped (probed on
+    the implementation). *)
+From Yarl Require Import Model.GenTypes Generated.UrlGen Proofs.GenUrlProofs.
+Theorem C10_source_eq : forall a b : url, gen_eq a b = url_eqb a b.
+Proof. exact gen_eq_ok. Qed.
+Print Assumptions C10_source_eq.
+Theorem C10_source_cmp_val : forall a : url, gen_cmp_val a = cmp_key a.
+Proof. exact gen_cmp_val_ok. Qed.
+Print Assumptions C10_source_cmp_val.
+Theorem C10_source_order : forall a b : url,
+  gen_lt a b = url_ltb a b /\ gen_le a b = url_leb a b /\ gen_gt a b = url_gtb a b /\ gen_ge a b = url_geb a b.
+Proof. exact gen_order_ok. Qed.
+Print Assumptions C10_source_order.
